@@ -560,8 +560,9 @@ class Result:
 
 
 class Translator:
-    def __init__(self, mod, prefix="ir_", site_base=0):
+    def __init__(self, mod, prefix="ir_", site_base=0, stubs=()):
         self.m = mod
+        self.stubs = set(stubs)   # defined functions to be treated as externals (bodies supplied by the includer)
         self.px = prefix
         self.gpx = prefix + "g_"
         self.site = site_base
@@ -1871,7 +1872,7 @@ class Translator:
             kind, name = self.work.pop()
             if kind == 'f':
                 f = self.m.funcs[name]
-                if f.blocks is None:
+                if f.blocks is None or name in self.stubs:
                     if name.startswith('llvm.') or name in LIBC_MEM:
                         continue
                     if f.vararg:
